@@ -442,7 +442,7 @@ func init() {
 			if tier == "thorough" {
 				d = "presence vectors within 3 flips of both defaults and all 2^k subsets for messages with k<=12 optional slots; each slot through every legal length (two-octet fields: every legal length <= 2100 and 2^k±1); content patterns; all 256 walking values at the first and last position; all slots at maximum together"
 			}
-			return "message values generated from the pinned tables (well-formed by construction) and built with the decoder's own allocators: " + d + ". Every value is encoded through Encode<Msg>, Gmm/GsmMessageEncode and PlainNasEncode, compared byte for byte with the table-driven reference encoding, decoded through the matching entry point and compared with the original by reflect.DeepEqual. A state is one message value; a transition is one encode+decode execution."
+			return "message values generated from the pinned tables (well-formed by construction) and built with the decoder's own allocators: " + d + ". Every value is encoded through Encode<Msg>, Gmm/GsmMessageEncode and PlainNasEncode, compared byte for byte with the table-driven reference encoding, kept while another message of the family and then the same message again are encoded through the same entry point (the octets returned first must not change, the second encoding must equal the first), decoded through the matching entry point and compared with the original by reflect.DeepEqual. A state is one message value; a transition is one encode+decode execution."
 		},
 		Assumptions: []string{
 			"well-formedness as in the property statement: declared length = content length within bounds, table identifiers, header view = body header octets",
